@@ -8,7 +8,9 @@
 (*   reset    case constants: abstract font F (must be well-formed), list   *)
 (*   orig     projection of the concrete font the harness built from F:     *)
 (*            must be F itself (the identity subset) -- otherwise the line  *)
-(*            is not consumed: harness and model disagree, no verdict       *)
+(*            is not consumed: harness and model disagree, no verdict;      *)
+(*            if the library cannot decode the built font at all the case   *)
+(*            is printed as <<"SKIPPED", case, "orig">> and not judged      *)
 (*   subset   Failed(F, list, P) must be empty                              *)
 (*   osubset  FailedOutlines(F, list, P) must be empty                      *)
 (*   reread   FailedReread(F, P, status, Q) must be empty                   *)
@@ -44,6 +46,14 @@ Reset ==
 
 Identity(n) == [i \in 1..n |-> i - 1]
 
+\* The library could not inspect (decode) the font the harness built from valid parts: that is
+\* not the subsetter's doing (C01's subject).  The case is recorded as skipped, not judged.
+OrigSkipped ==
+  /\ Is("orig") /\ ~E.p.ok
+  /\ PrintT(<<"SKIPPED", E.case, "orig">>)
+  /\ UNCHANGED <<F, list, P>>
+  /\ Consume
+
 Orig ==
   /\ Is("orig")
   /\ E.p.ok /\ Len(E.p.glyphs) = F.n
@@ -74,7 +84,7 @@ Reread ==
   /\ UNCHANGED <<F, list, P>>
   /\ Consume
 
-Next == Reset \/ Orig \/ Sub \/ OSub \/ Reread
+Next == Reset \/ Orig \/ OrigSkipped \/ Sub \/ OSub \/ Reread
 Spec == Init /\ [][Next]_vars
 
 Accepted == IF TLCGet(1) = Len(Trace) THEN TRUE
